@@ -1,0 +1,236 @@
+//go:build verif
+
+package utils
+
+// Contracts for visitor.go (C20), checked by /verif/jetvc. Comments only; compiled only under the build tag "verif".
+
+// VT: the sequence of nodes handed to Visitor.Visit so far
+//@ sort VTrace
+//@ ghost VT VTrace
+//@ ufunc Vis(VTrace, jet.Node) VTrace
+
+// every node type the parser can put into a tree (catch nodes hang off TryNode.Catch and are never passed as a Node)
+//@ pred InUniverse(n jet.Node) := istype(n, "*jet.ListNode") || istype(n, "*jet.ActionNode") || istype(n, "*jet.ChainNode") || istype(n, "*jet.CommandNode") || istype(n, "*jet.IfNode") || istype(n, "*jet.PipeNode") || istype(n, "*jet.RangeNode") || istype(n, "*jet.BlockNode") || istype(n, "*jet.IncludeNode") || istype(n, "*jet.YieldNode") || istype(n, "*jet.SetNode") || istype(n, "*jet.AdditiveExprNode") || istype(n, "*jet.MultiplicativeExprNode") || istype(n, "*jet.ComparativeExprNode") || istype(n, "*jet.NumericComparativeExprNode") || istype(n, "*jet.LogicalExprNode") || istype(n, "*jet.CallExprNode") || istype(n, "*jet.NotExprNode") || istype(n, "*jet.TernaryExprNode") || istype(n, "*jet.IndexExprNode") || istype(n, "*jet.SliceExprNode") || istype(n, "*jet.TryNode") || istype(n, "*jet.ReturnNode") || istype(n, "*jet.UnderscoreNode") || istype(n, "*jet.TextNode") || istype(n, "*jet.IdentifierNode") || istype(n, "*jet.StringNode") || istype(n, "*jet.NilNode") || istype(n, "*jet.NumberNode") || istype(n, "*jet.BoolNode") || istype(n, "*jet.FieldNode")
+
+//@ func (utils.Visitor).Visit
+//@   trusted user visitor: only its being called is recorded
+//@   params v, vc, node
+//@   modifies ghost VT
+//@   nopanic
+//@   requires [visitor-never-gets-nil] node != nil
+//@   ensures VT == Vis(old(VT), node)
+
+//@ func (utils.VisitorContext).visitNode
+//@   props C20
+//@   requires vc.Visitor != nil && node != nil
+//@   modifies ghost VT
+//@   nopanic
+//@   ensures [passes-the-node-once] VT == Vis(old(VT), node)
+
+//@ func utils.Walk
+//@   props C20
+//@   requires t != nil && t.Root != nil && v != nil
+//@   modifies ghost VT
+//@   nopanic
+//@   ensures [walk-starts-at-the-root] VT == Vis(old(VT), iface(t.Root, "*jet.ListNode"))
+
+//@ func (utils.VisitorContext).Visit
+//@   props C20
+//@   requires vc.Visitor != nil && node != nil && refof(node) != nil && InUniverse(node) && WFChildren(node)
+//@   modifies ghost VT
+//@   nopanic
+
+//@ pred NonNilElems(s []jet.Node) := forall(i, 0, len(s), s[i] != nil)
+//@ pred NonNilExprs(s []jet.Expression) := forall(i, 0, len(s), s[i] != nil)
+// children the parser guarantees to be present (assumed here; the parser contracts establish them)
+//@ pred WFChildren(n jet.Node) := (istype(n, "*jet.ListNode") ==> NonNilElems(as(n, "*jet.ListNode").Nodes)) && (istype(n, "*jet.IfNode") ==> as(n, "*jet.IfNode").List != nil) && (istype(n, "*jet.RangeNode") ==> as(n, "*jet.RangeNode").List != nil) && (istype(n, "*jet.BlockNode") ==> as(n, "*jet.BlockNode").List != nil && as(n, "*jet.BlockNode").Parameters != nil) && (istype(n, "*jet.IncludeNode") ==> as(n, "*jet.IncludeNode").Name != nil) && (istype(n, "*jet.TryNode") ==> as(n, "*jet.TryNode").List != nil) && (istype(n, "*jet.ReturnNode") ==> as(n, "*jet.ReturnNode").Value != nil) && (istype(n, "*jet.ChainNode") ==> as(n, "*jet.ChainNode").Node != nil) && (istype(n, "*jet.NotExprNode") ==> as(n, "*jet.NotExprNode").Expr != nil) && (istype(n, "*jet.SliceExprNode") ==> as(n, "*jet.SliceExprNode").Base != nil) && (istype(n, "*jet.IndexExprNode") ==> as(n, "*jet.IndexExprNode").Base != nil && as(n, "*jet.IndexExprNode").Index != nil) && (istype(n, "*jet.TernaryExprNode") ==> as(n, "*jet.TernaryExprNode").Boolean != nil && as(n, "*jet.TernaryExprNode").Left != nil && as(n, "*jet.TernaryExprNode").Right != nil) && (istype(n, "*jet.AdditiveExprNode") ==> as(n, "*jet.AdditiveExprNode").Right != nil) && (istype(n, "*jet.MultiplicativeExprNode") ==> as(n, "*jet.MultiplicativeExprNode").Left != nil && as(n, "*jet.MultiplicativeExprNode").Right != nil) && (istype(n, "*jet.ComparativeExprNode") ==> as(n, "*jet.ComparativeExprNode").Left != nil && as(n, "*jet.ComparativeExprNode").Right != nil) && (istype(n, "*jet.NumericComparativeExprNode") ==> as(n, "*jet.NumericComparativeExprNode").Left != nil && as(n, "*jet.NumericComparativeExprNode").Right != nil) && (istype(n, "*jet.LogicalExprNode") ==> as(n, "*jet.LogicalExprNode").Left != nil && as(n, "*jet.LogicalExprNode").Right != nil) && (istype(n, "*jet.CallExprNode") ==> as(n, "*jet.CallExprNode").BaseExpr != nil && NonNilExprs(as(n, "*jet.CallExprNode").CallArgs.Exprs)) && (istype(n, "*jet.CommandNode") ==> as(n, "*jet.CommandNode").CallExprNode.BaseExpr != nil && NonNilExprs(as(n, "*jet.CommandNode").CallExprNode.CallArgs.Exprs)) && (istype(n, "*jet.SetNode") ==> NonNilExprs(as(n, "*jet.SetNode").Left) && NonNilExprs(as(n, "*jet.SetNode").Right)) && (istype(n, "*jet.PipeNode") ==> forall(i, 0, len(as(n, "*jet.PipeNode").Cmds), as(n, "*jet.PipeNode").Cmds[i] != nil))
+
+//@ func (utils.VisitorContext).visitIncludeNode
+//@   props C20
+//@   requires vc.Visitor != nil && includeNode != nil && includeNode.Name != nil
+//@   modifies ghost VT
+//@   nopanic
+//@   ensures [children-exactly-once-in-order] VT == ite(includeNode.Context != nil, Vis(Vis(old(VT), includeNode.Name), includeNode.Context), Vis(old(VT), includeNode.Name))
+
+//@ func (utils.VisitorContext).visitReturnNode
+//@   props C20
+//@   requires vc.Visitor != nil && returnNode != nil && returnNode.Value != nil
+//@   modifies ghost VT
+//@   nopanic
+//@   ensures [children-exactly-once-in-order] VT == Vis(old(VT), returnNode.Value)
+
+//@ func (utils.VisitorContext).visitTryNode
+//@   props C20
+//@   requires vc.Visitor != nil && tryNode != nil && tryNode.List != nil
+//@   modifies ghost VT
+//@   nopanic
+//@   ensures [children-exactly-once-in-order] VT == ite(tryNode.Catch != nil && tryNode.Catch.List != nil, Vis(ite(tryNode.Catch != nil && tryNode.Catch.Err != nil, Vis(Vis(old(VT), iface(tryNode.List, "*jet.ListNode")), iface(tryNode.Catch.Err, "*jet.IdentifierNode")), Vis(old(VT), iface(tryNode.List, "*jet.ListNode"))), iface(tryNode.Catch.List, "*jet.ListNode")), ite(tryNode.Catch != nil && tryNode.Catch.Err != nil, Vis(Vis(old(VT), iface(tryNode.List, "*jet.ListNode")), iface(tryNode.Catch.Err, "*jet.IdentifierNode")), Vis(old(VT), iface(tryNode.List, "*jet.ListNode"))))
+
+//@ func (utils.VisitorContext).visitBranchNode
+//@   props C20
+//@   requires vc.Visitor != nil && branchNode != nil && branchNode.List != nil
+//@   modifies ghost VT
+//@   nopanic
+//@   ensures [children-exactly-once-in-order] VT == ite(branchNode.ElseList != nil, Vis(Vis(ite(branchNode.Expression != nil, Vis(ite(branchNode.Set != nil, Vis(old(VT), iface(branchNode.Set, "*jet.SetNode")), old(VT)), branchNode.Expression), ite(branchNode.Set != nil, Vis(old(VT), iface(branchNode.Set, "*jet.SetNode")), old(VT))), iface(branchNode.List, "*jet.ListNode")), iface(branchNode.ElseList, "*jet.ListNode")), Vis(ite(branchNode.Expression != nil, Vis(ite(branchNode.Set != nil, Vis(old(VT), iface(branchNode.Set, "*jet.SetNode")), old(VT)), branchNode.Expression), ite(branchNode.Set != nil, Vis(old(VT), iface(branchNode.Set, "*jet.SetNode")), old(VT))), iface(branchNode.List, "*jet.ListNode")))
+
+//@ func (utils.VisitorContext).visitAdditiveExprNode
+//@   props C20
+//@   requires vc.Visitor != nil && additiveExprNode != nil && additiveExprNode.Right != nil
+//@   modifies ghost VT
+//@   nopanic
+//@   ensures [children-exactly-once-in-order] VT == Vis(ite(additiveExprNode.Left != nil, Vis(old(VT), additiveExprNode.Left), old(VT)), additiveExprNode.Right)
+
+//@ func (utils.VisitorContext).visitMultiplicativeExprNode
+//@   props C20
+//@   requires vc.Visitor != nil && multiplicativeExprNode != nil && multiplicativeExprNode.Left != nil && multiplicativeExprNode.Right != nil
+//@   modifies ghost VT
+//@   nopanic
+//@   ensures [children-exactly-once-in-order] VT == Vis(Vis(old(VT), multiplicativeExprNode.Left), multiplicativeExprNode.Right)
+
+//@ func (utils.VisitorContext).visitComparativeExprNode
+//@   props C20
+//@   requires vc.Visitor != nil && comparativeExprNode != nil && comparativeExprNode.Left != nil && comparativeExprNode.Right != nil
+//@   modifies ghost VT
+//@   nopanic
+//@   ensures [children-exactly-once-in-order] VT == Vis(Vis(old(VT), comparativeExprNode.Left), comparativeExprNode.Right)
+
+//@ func (utils.VisitorContext).visitNumericComparativeExprNode
+//@   props C20
+//@   requires vc.Visitor != nil && numericComparativeExprNode != nil && numericComparativeExprNode.Left != nil && numericComparativeExprNode.Right != nil
+//@   modifies ghost VT
+//@   nopanic
+//@   ensures [children-exactly-once-in-order] VT == Vis(Vis(old(VT), numericComparativeExprNode.Left), numericComparativeExprNode.Right)
+
+//@ func (utils.VisitorContext).visitLogicalExprNode
+//@   props C20
+//@   requires vc.Visitor != nil && logicalExprNode != nil && logicalExprNode.Left != nil && logicalExprNode.Right != nil
+//@   modifies ghost VT
+//@   nopanic
+//@   ensures [children-exactly-once-in-order] VT == Vis(Vis(old(VT), logicalExprNode.Left), logicalExprNode.Right)
+
+//@ func (utils.VisitorContext).visitNotExprNode
+//@   props C20
+//@   requires vc.Visitor != nil && notExprNode != nil && notExprNode.Expr != nil
+//@   modifies ghost VT
+//@   nopanic
+//@   ensures [children-exactly-once-in-order] VT == Vis(old(VT), notExprNode.Expr)
+
+//@ func (utils.VisitorContext).visitTernaryExprNode
+//@   props C20
+//@   requires vc.Visitor != nil && ternaryExprNode != nil && ternaryExprNode.Boolean != nil && ternaryExprNode.Left != nil && ternaryExprNode.Right != nil
+//@   modifies ghost VT
+//@   nopanic
+//@   ensures [children-exactly-once-in-order] VT == Vis(Vis(Vis(old(VT), ternaryExprNode.Boolean), ternaryExprNode.Left), ternaryExprNode.Right)
+
+//@ func (utils.VisitorContext).visitIndexExprNode
+//@   props C20
+//@   requires vc.Visitor != nil && indexNode != nil && indexNode.Base != nil && indexNode.Index != nil
+//@   modifies ghost VT
+//@   nopanic
+//@   ensures [children-exactly-once-in-order] VT == Vis(Vis(old(VT), indexNode.Base), indexNode.Index)
+
+//@ func (utils.VisitorContext).visitSliceExprNode
+//@   props C20
+//@   requires vc.Visitor != nil && sliceExprNode != nil && sliceExprNode.Base != nil
+//@   modifies ghost VT
+//@   nopanic
+//@   ensures [children-exactly-once-in-order] VT == ite(sliceExprNode.EndIndex != nil, Vis(ite(sliceExprNode.Index != nil, Vis(Vis(old(VT), sliceExprNode.Base), sliceExprNode.Index), Vis(old(VT), sliceExprNode.Base)), sliceExprNode.EndIndex), ite(sliceExprNode.Index != nil, Vis(Vis(old(VT), sliceExprNode.Base), sliceExprNode.Index), Vis(old(VT), sliceExprNode.Base)))
+
+//@ func (utils.VisitorContext).visitChainNode
+//@   props C20
+//@   requires vc.Visitor != nil && chainNode != nil && chainNode.Node != nil
+//@   modifies ghost VT
+//@   nopanic
+//@   ensures [children-exactly-once-in-order] VT == Vis(old(VT), chainNode.Node)
+
+//@ func (utils.VisitorContext).visitActionNode
+//@   props C20
+//@   requires vc.Visitor != nil && actionNode != nil
+//@   modifies ghost VT
+//@   nopanic
+//@   ensures [children-exactly-once-in-order] VT == ite(actionNode.Pipe != nil, Vis(ite(actionNode.Set != nil, Vis(old(VT), iface(actionNode.Set, "*jet.SetNode")), old(VT)), iface(actionNode.Pipe, "*jet.PipeNode")), ite(actionNode.Set != nil, Vis(old(VT), iface(actionNode.Set, "*jet.SetNode")), old(VT)))
+
+//@ func (utils.VisitorContext).visitIfNode
+//@   props C20
+//@   requires vc.Visitor != nil && ifNode != nil && ifNode.List != nil
+//@   modifies ghost VT
+//@   nopanic
+//@   check ncalls("(utils.VisitorContext).visitBranchNode") == 1
+//@ func (utils.VisitorContext).visitRangeNode
+//@   props C20
+//@   requires vc.Visitor != nil && rangeNode != nil && rangeNode.List != nil
+//@   modifies ghost VT
+//@   nopanic
+//@   check ncalls("(utils.VisitorContext).visitBranchNode") == 1
+
+//@ func (utils.VisitorContext).visitListNode
+//@   props C20
+//@   requires vc.Visitor != nil && listNode != nil && NonNilElems(listNode.Nodes)
+//@   modifies ghost VT
+//@   nopanic
+//@   loop 0 invariant -1 <= rangeindex && rangeindex < len(listNode.Nodes) && visits("(utils.VisitorContext).visitNode", 0) == rangeindex + 1
+//@   callsite (utils.VisitorContext).visitNode 0 requires [elements-in-order] node == listNode.Nodes[caller.rangeindex + 1]
+//@   check [every-element-once] visits("(utils.VisitorContext).visitNode", 0) == len(listNode.Nodes)
+
+//@ func (utils.VisitorContext).visitPipeNode
+//@   props C20
+//@   requires vc.Visitor != nil && pipeNode != nil && forall(i, 0, len(pipeNode.Cmds), pipeNode.Cmds[i] != nil)
+//@   modifies ghost VT
+//@   nopanic
+//@   loop 0 invariant -1 <= rangeindex && rangeindex < len(pipeNode.Cmds) && visits("(utils.VisitorContext).visitNode", 0) == rangeindex + 1
+//@   callsite (utils.VisitorContext).visitNode 0 requires [commands-in-order] node == iface(pipeNode.Cmds[caller.rangeindex + 1], "*jet.CommandNode")
+//@   check [every-command-once] visits("(utils.VisitorContext).visitNode", 0) == len(pipeNode.Cmds)
+
+//@ func (utils.VisitorContext).visitSetNode
+//@   props C20
+//@   requires vc.Visitor != nil && setNode != nil && NonNilExprs(setNode.Left) && NonNilExprs(setNode.Right)
+//@   modifies ghost VT
+//@   nopanic
+//@   loop 0 invariant -1 <= rangeindex && rangeindex < len(setNode.Left) && visits("(utils.VisitorContext).visitNode", 0) == rangeindex + 1
+//@   loop 1 invariant -1 <= rangeindex && rangeindex < len(setNode.Right) && visits("(utils.VisitorContext).visitNode", 1) == rangeindex + 1 && visits("(utils.VisitorContext).visitNode", 0) == len(setNode.Left)
+//@   callsite (utils.VisitorContext).visitNode 0 requires node == setNode.Left[caller.rangeindex + 1]
+//@   callsite (utils.VisitorContext).visitNode 1 requires node == setNode.Right[caller.rangeindex + 1]
+//@   check [every-target-and-source-once] visits("(utils.VisitorContext).visitNode", 0) == len(setNode.Left) && visits("(utils.VisitorContext).visitNode", 1) == len(setNode.Right)
+
+//@ func (utils.VisitorContext).visitCallExprNode
+//@   props C20
+//@   requires vc.Visitor != nil && callExprNode != nil && callExprNode.BaseExpr != nil && NonNilExprs(callExprNode.CallArgs.Exprs)
+//@   modifies ghost VT
+//@   nopanic
+//@   loop 0 invariant -1 <= rangeindex && rangeindex < len(callExprNode.CallArgs.Exprs) && visits("(utils.VisitorContext).visitNode", 1) == rangeindex + 1 && visits("(utils.VisitorContext).visitNode", 0) == 1
+//@   callsite (utils.VisitorContext).visitNode 0 requires node == callExprNode.BaseExpr
+//@   callsite (utils.VisitorContext).visitNode 1 requires node == callExprNode.CallArgs.Exprs[caller.rangeindex + 1]
+//@   check [callee-and-every-argument-once] visits("(utils.VisitorContext).visitNode", 0) == 1 && visits("(utils.VisitorContext).visitNode", 1) == len(callExprNode.CallArgs.Exprs)
+
+//@ func (utils.VisitorContext).visitCommandNode
+//@   props C20
+//@   requires vc.Visitor != nil && commandNode != nil && commandNode.CallExprNode.BaseExpr != nil && NonNilExprs(commandNode.CallExprNode.CallArgs.Exprs)
+//@   modifies ghost VT
+//@   nopanic
+//@   loop 0 invariant -1 <= rangeindex && rangeindex < len(commandNode.CallExprNode.CallArgs.Exprs) && visits("(utils.VisitorContext).visitNode", 1) == rangeindex + 1 && visits("(utils.VisitorContext).visitNode", 0) == 1
+//@   callsite (utils.VisitorContext).visitNode 0 requires node == commandNode.CallExprNode.BaseExpr
+//@   callsite (utils.VisitorContext).visitNode 1 requires node == commandNode.CallExprNode.CallArgs.Exprs[caller.rangeindex + 1]
+//@   check [base-and-every-argument-once] visits("(utils.VisitorContext).visitNode", 0) == 1 && visits("(utils.VisitorContext).visitNode", 1) == len(commandNode.CallExprNode.CallArgs.Exprs)
+
+//@ func (utils.VisitorContext).visitBlockNode
+//@   props C20
+//@   requires vc.Visitor != nil && blockNode != nil && blockNode.Parameters != nil && blockNode.List != nil
+//@   modifies ghost VT
+//@   nopanic
+//@   loop 0 invariant -1 <= rangeindex
+//@   callsite (utils.VisitorContext).visitNode 0 requires [parameter-defaults] node == blockNode.Parameters.List[caller.rangeindex + 1].Expression
+//@   callsite (utils.VisitorContext).visitNode 1 requires [block-context] node == blockNode.Expression
+//@   callsite (utils.VisitorContext).visitNode 2 requires [block-body-is-visited-as-a-node] node == iface(blockNode.List, "*jet.ListNode")
+//@   callsite (utils.VisitorContext).visitNode 3 requires [block-content] node == iface(blockNode.Content, "*jet.ListNode")
+//@   check [body-once-context-and-content-iff-present] visits("(utils.VisitorContext).visitNode", 2) == 1 && visits("(utils.VisitorContext).visitNode", 1) == ite(blockNode.Expression != nil, 1, 0) && visits("(utils.VisitorContext).visitNode", 3) == ite(blockNode.Content != nil, 1, 0)
+
+//@ func (utils.VisitorContext).visitYieldNode
+//@   props C20
+//@   requires vc.Visitor != nil && yieldNode != nil
+//@   modifies ghost VT
+//@   nopanic
+//@   loop 0 invariant -1 <= rangeindex
+//@   callsite (utils.VisitorContext).visitNode 0 requires [yield-arguments] node == yieldNode.Parameters.List[caller.rangeindex + 1].Expression
+//@   callsite (utils.VisitorContext).visitNode 1 requires [yield-context] node == yieldNode.Expression
+//@   callsite (utils.VisitorContext).visitNode 2 requires [yield-content] node == iface(yieldNode.Content, "*jet.ListNode")
+//@   check [context-and-content-iff-present] visits("(utils.VisitorContext).visitNode", 1) == ite(yieldNode.Expression != nil, 1, 0) && visits("(utils.VisitorContext).visitNode", 2) == ite(yieldNode.Content != nil, 1, 0)
